@@ -363,14 +363,14 @@ func firstLines(s string, n int) string {
 func c12Scenarios(tier string) []*lib.SchedScenario {
 	ops := c12Ops()
 	var scs []*lib.SchedScenario
-	bound := 1
+	bound := 3
 	if tier == "thorough" {
-		bound = 2
+		bound = 4
 	}
 	for _, kind := range []string{"indexed", "linear"} {
 		for _, pop := range []bool{false, true} {
 			for a := range ops {
-				for b := a; b < len(ops); b++ {
+				for b := range ops { // ordered pairs: which client is started first matters under delay bounding
 					scs = append(scs, c12Scenario(kind, pop, [][]int{{a}, {b}}, ops, bound))
 				}
 			}
@@ -398,7 +398,7 @@ func init() {
 	lib.Register(&lib.Check{
 		ID:    "C12",
 		Level: "model_checking",
-		Rule: "stateless schedule exploration (controlled cooperative scheduler, deviation bound 1 quick / 2 thorough) of 2 client threads x 1 operation for ALL unordered pairs of 9 operations on shared ids, from an empty and a populated location, both states (thorough: + 3 threads x 1 op and 2+1 ops over a 5-operation alphabet); oracle: brute-force linearizability against sequential runs of the same operations plus final memory/storage state, deadlock, escaped panic, happens-before races; " +
+		Rule: "stateless schedule exploration (controlled cooperative scheduler, deviation bound 3 quick / 4 thorough; a deviation = preempting a runnable thread, or not picking the lowest-id runnable thread when the running one blocks) of 2 client threads x 1 operation for ALL ordered pairs of 9 operations on shared ids, from an empty and a populated location, both states (thorough: + 3 threads x 1 op and 2+1 ops over a 5-operation alphabet); oracle: brute-force linearizability against sequential runs of the same operations plus final memory/storage state, deadlock, escaped panic, happens-before races; " +
 			"states = distinct observed outcomes, transitions = scheduling decisions, traces = schedules executed; non-trivial = distinct (scenario, outcome) pairs",
 		Assumptions: []string{
 			"sequential consistency for racy code (races themselves are reported)",
